@@ -28,6 +28,7 @@ type VerifC10Case struct {
 	Kind  string `json:"kind"` // identity | dropodd | dup | create
 	Full  bool   `json:"full"` // fullsync pipeline instead of incremental
 	Wrap  bool   `json:"wrap"` // wrap the JS transform in a recording transform
+	Copy  bool   `json:"copy"` // copy mode (zz_verif_c10copy.go): real DatasetSink, rich contents, compared with a plain copy
 }
 
 type VerifC10Obs struct {
@@ -38,6 +39,12 @@ type VerifC10Obs struct {
 	Rerun   int     `json:"rerun"`   // number of entities the sink saw in a second run (-1: not run)
 	Result  bool    `json:"result"`  // a job result was stored
 	Detail  string  `json:"detail"`
+	// copy mode
+	DstEq       bool `json:"dst_eq"`       // sink entities == entities of a plain copy job's sink
+	DstChanges  int  `json:"dst_changes"`  // change-log length of the sink after the first run
+	RefChanges  int  `json:"ref_changes"`  // change-log length of the plain copy's sink
+	ReChanges   int  `json:"re_changes"`   // changes added to the sink by a second run from scratch (token reset)
+	FullChanges int  `json:"full_changes"` // changes added to the sink by a further full-sync run
 }
 
 type verifRecSink struct {
@@ -123,6 +130,9 @@ var verifC10JS = map[string]string{
 
 // VerifC10Run executes one case on a fresh store under dir.
 func VerifC10Run(c VerifC10Case, dir string) (obs VerifC10Obs) {
+	if c.Copy {
+		return VerifC10Copy(c, dir)
+	}
 	obs.Rerun = -1
 	_ = os.MkdirAll(dir, 0o755)
 	defer os.RemoveAll(dir)
